@@ -108,6 +108,8 @@ type world struct {
 	stab    bool     // compare every kept message with its snapshot at every later callback
 	mutated []string // what changed, when (first report per message)
 	mutSeen map[int]bool
+	// slowReplyMs: see worldOpts
+	slowReplyMs int
 }
 
 // checkStable compares each message kept from an earlier read callback with
@@ -116,7 +118,7 @@ type world struct {
 //go:norace
 func (w *world) checkStable(at string) {
 	for _, e := range w.ev {
-		if e.Msg == nil || (e.Kind != "hread" && e.Kind != "tread" && e.Kind != "unsupported") {
+		if e.Msg == nil || (e.Kind != "hread" && e.Kind != "tread" && e.Kind != "unsupported" && e.Kind != "join") {
 			continue
 		}
 		if w.mutSeen[e.Seq] {
@@ -177,7 +179,11 @@ type recEventer struct {
 }
 
 func (r *recEventer) OnJoinEvent(msg *service.Message, key string, err error) {
-	r.w.add(event{Kind: "join", Conn: r.conn, Msg: msg, Key: key, Err: err})
+	e := event{Kind: "join", Conn: r.conn, Msg: msg, Key: key, Err: err}
+	if msg != nil {
+		e.Snap = takeSnap(msg)
+	}
+	r.w.add(e)
 }
 func (r *recEventer) OnLeaveEvent(key string) { r.w.add(event{Kind: "leave", Conn: r.conn, Key: key}) }
 func (r *recEventer) OnNotSupportedEvent(msg *service.Message) {
@@ -188,6 +194,9 @@ func (r *recEventer) OnReadExecutionEvent(msg *service.Message) {
 }
 func (r *recEventer) OnWriteExecutionEvent(msg service.Message) {
 	r.w.add(event{Kind: "twrite", Conn: r.conn, Snap: takeSnap(&msg)})
+	if r.w.slowReplyMs > 0 && !msg.ExtensionFields.ActiveSend && msg.JTMessage != nil && msg.JTMessage.Header != nil && msg.JTMessage.Header.ID == 0x0200 {
+		vs.SleepNanos(int64(r.w.slowReplyMs)*1e6, "user-callback:slow-write-event")
+	}
 }
 
 // defaultModels mirrors the set of IDs the server registers by default; the
@@ -232,11 +241,13 @@ type worldOpts struct {
 	parse    bool
 	noRecord bool // plain default configuration (no custom handlers / eventer)
 	filter   *bool
+	// slowReplyMs: OnWriteExecutionEvent takes this much virtual time when the written frame answers a location report
+	slowReplyMs int
 }
 
 // startWorld must be called from thread 0 of an execution.
 func startWorld(o worldOpts) *world {
-	w := &world{parse: o.parse, stab: o.stab}
+	w := &world{parse: o.parse, stab: o.stab, slowReplyMs: o.slowReplyMs}
 	w.boot(o)
 	return w
 }
